@@ -36,7 +36,10 @@ func (ps Prices) Insert(commodity *commodity.Commodity, price decimal.Decimal, t
 		return fmt.Errorf("invalid price %s for commodity %s in %s", price.String(), commodity.Name(), target.Name())
 	}
 	ps.addPrice(target, commodity, price)
-	ps.addPrice(commodity, target, one.Div(price).Truncate(8))
+	// the reciprocal truncated to 8 decimals (Div would round at 16 decimals first: 1 / 110.72124929 =
+	// 0.00903168999999999... would become 0.00903169)
+	inverse, _ := one.QuoRem(price, 8)
+	ps.addPrice(commodity, target, inverse)
 	return nil
 }
 
